@@ -254,6 +254,8 @@ mod order {
         }
     }
 
+    static WAITED_MS: std::sync::atomic::AtomicU64 = std::sync::atomic::AtomicU64::new(0);
+
     /// A resolver double: answers every host with a fixed list (whose ports are NOT the request port).
     #[derive(Clone)]
     struct FixedResolver(Vec<SocketAddr>);
@@ -285,18 +287,25 @@ mod order {
             let transport: TcpTransport<FixedResolver> = TcpTransport::builder().with_config(cfg).with_resolver(FixedResolver(answer)).build();
             let (parts, _) = http::Request::builder().uri(format!("http://candidates.test:{port}/")).body(()).unwrap().into_parts();
             let r = AssertUnwindSafe(transport.oneshot(parts)).catch_unwind().await;
-            (r.is_err(), r.ok().map(|c| Box::new(c) as Box<dyn std::any::Any>))
+            (r.is_err(), r.ok().and_then(|c| c.ok()).map(|c| Box::new(c) as Box<dyn std::any::Any>))
         } else {
             let transport: TcpTransport = TcpTransport::builder().with_config(cfg).with_gai_resolver().build();
             let addrs: Vec<SocketAddr> = list.iter().map(|&(f, t)| SocketAddr::new(loop_addr(f, t), port)).collect();
             let r = AssertUnwindSafe(transport.connect_to_addrs(addrs)).catch_unwind().await;
-            (r.is_err(), r.ok().map(|c| Box::new(c) as Box<dyn std::any::Any>))
+            (r.is_err(), r.ok().and_then(|c| c.ok()).map(|c| Box::new(c) as Box<dyn std::any::Any>))
         };
         let mut plan = vec![];
         for _ in 0..n {
-            match tokio::time::timeout(Duration::from_secs(2), listener.accept()).await {
+            // connections started before connect returned are already in the accept queue (loopback); waiting is
+            // only needed when some are missing, and the total time spent waiting is bounded
+            let spent = WAITED_MS.load(std::sync::atomic::Ordering::Relaxed);
+            let wait = if conn.is_some() && spent < 20_000 { Duration::from_millis(300) } else { Duration::from_millis(20) };
+            match tokio::time::timeout(wait, listener.accept()).await {
                 Ok(Ok((s, _peer))) => plan.push(abstract_local(&s.local_addr().map_err(|e| e.to_string())?, port)),
-                _ => break,
+                _ => {
+                    WAITED_MS.fetch_add(wait.as_millis() as u64, std::sync::atomic::Ordering::Relaxed);
+                    break;
+                }
             }
         }
         drop(conn);
@@ -351,7 +360,9 @@ mod order {
                         if runs.len() == 1 {
                             // fast path: re-run only if the first run does not look like the expected plan
                             let v = json!({"list": list.iter().map(|x| json!({"f": x.0, "t": x.1})).collect::<Vec<_>>(), "bind": bind, "he": he, "port": runs[0].1});
-                            if mirror(&v, &runs[0].0) {
+                            // re-run only a COMPLETE arrival sequence in an unexpected order (a possible reordering by the
+                            // kernel); missing connections are not a matter of ordering
+                            if mirror(&v, &runs[0].0) || runs[0].0.len() != list.len() {
                                 break;
                             }
                         }
